@@ -58,6 +58,23 @@ def _check_vec(cases):
     return n, divs
 
 
+def _write_bad_nc(path, inp):
+    """a NetCDF file with time, leadtime and location VARIABLES but the lead times on a dimension called `offset`: not the documented layout"""
+    import netCDF4
+    import numpy as np
+    f = netCDF4.Dataset(path, "w", format="NETCDF4")
+    nt, nl, ns = len(inp["times"]), len(inp["leads"]), len(inp["locs"])
+    f.createDimension("time", None)
+    f.createDimension("offset", nl)
+    f.createDimension("location", ns)
+    f.createVariable("time", "f8", ("time",))[:] = np.array(inp["times"], float)
+    f.createVariable("leadtime", "f4", ("offset",))[:] = np.array([mat.num(x) for x in inp["leads"]], float)
+    f.createVariable("location", "i4", ("location",))[:] = np.array(inp["locs"], int)
+    for name in ("obs", "fcst"):
+        f.createVariable(name, "f4", ("time", "offset", "location"))[:] = np.array([0.0 if v == "nan" else mat.num(v) for v in inp[name]], float).reshape(nt, nl, ns)
+    f.close()
+
+
 def _check_cli(cases):
     import json as _json
     n = 0
@@ -66,7 +83,8 @@ def _check_cli(cases):
     wd = par.workdir()
     hook = os.path.join(wd, "cli_hook.ndjson")
     paths = {"FILE1": os.path.join(wd, "FILE1"), "FILE2": os.path.join(wd, "FILE2"), "CLIM": os.path.join(wd, "CLIM"), "CLIM2": os.path.join(wd, "CLIM2"),
-             "CFG": os.path.join(wd, "CFG"), "CFG2": os.path.join(wd, "CFG2"), "MISSINGFILE": os.path.join(wd, "does-not-exist")}
+             "CFG": os.path.join(wd, "CFG"), "CFG2": os.path.join(wd, "CFG2"), "MISSINGFILE": os.path.join(wd, "does-not-exist"),
+             "BADNCFILE": os.path.join(wd, "BADNCFILE")}
     written = None
     for c in cases:
         if written is None:
@@ -75,6 +93,7 @@ def _check_cli(cases):
             mat.write_text(paths["FILE2"], with_extra(c["files"][1]), row_order="reverse")
             mat.write_text(paths["CLIM"], c["clim"])
             mat.write_text(paths["CLIM2"], c["clim2"])
+            _write_bad_nc(paths["BADNCFILE"], c["files"][0])
             written = True
         exp = c["expected"]
         outputs = []
